@@ -244,3 +244,37 @@ def h_step(pf: int, ps: int, ei: int, rm0: int, rm1: int) -> bool:
         return tuple((r.report_type.name, I.snapshot({k: v for k, v in r.report.items() if k != "session_id"}, True)) for r in rs)
 
     return I.deq(_evs(outs[0][1]), _evs(outs[1][1]))
+
+
+# ------------------------------------------------------------------------------------- human driver looking for work
+from nrel.hive.state.driver_state.driver_instruction_ops import human_look_for_requests as _look
+
+_LOOK_CELLS = (2, 3, 5)  # C, D, F: three different search cells
+
+
+def h_look(p: int, q: int, n0: int, n1: int, n2: int) -> bool:
+    """
+    driver_instruction_ops.human_look_for_requests picks the densest request search cell out of sim.r_search (a Map keyed by
+    cell id: hash-ordered).  Three search cells hold n0 / n1 / n2 waiting requests (ties); r_search iterates in a solver-chosen
+    order; the reposition target must not depend on it.
+    pre: 0 <= p <= 5 and 0 <= q <= 5 and p < q
+    pre: 1 <= n0 <= 2 and 1 <= n1 <= 2 and 1 <= n2 <= 2
+    post: _
+    """
+    pa, pb = perm_of(p, 3), perm_of(q, 3)
+    if pa is None or pb is None:
+        return True
+    sim = sso.add_vehicle_safe(A.SIM0, replace(A.V0, position=A.POS[0])).unwrap()
+    counts = (1 if n0 == 1 else 2, 1 if n1 == 1 else 2, 1 if n2 == 1 else 2)
+    for j, c in enumerate(_LOOK_CELLS):
+        for k in range(counts[j]):
+            r = replace(A.R0, id=f"q{j}{k}", position=A.POS[c])
+            sim = sso.add_request_safe(sim, r).unwrap()
+    keys = tuple(real_h3.h3_to_parent(A.CELLS[c], A.SEARCH_RES) for c in _LOOK_CELLS)
+    out = []
+    for perm in (pa, pb):
+        view = stubs.MapOrderView(sim.r_search, tuple(keys[i] for i in perm))
+        ins = _look(sim.vehicles["v0"], sim._replace(r_search=view))  # ---- real code
+        out.append(None if ins is None else ins.destination)
+    note("look", counts[0], counts[1], counts[2])
+    return out[0] is not None and out[0] == out[1]
